@@ -141,6 +141,7 @@ class Call:
 class Store:
     def __init__(self, base, off, size, val, cond, inst):
         self.base, self.off, self.size, self.val, self.cond, self.inst = base, off, size, val, cond, inst
+        self.block = inst.get("_bb") if isinstance(inst, dict) else None
 
 
 PURE_INTRINSICS = {
@@ -257,6 +258,48 @@ class Func:
         order.reverse()
         return order
 
+    def back_edges(self):
+        """(src, dst) edges closing a cycle in a DFS from the entry block, and the DFS-forward order"""
+        entry = self.blocks[0]["id"]
+        color = {}
+        order = []
+        back = set()
+        stack = [(entry, iter(self.succs(self.bid[entry])))]
+        color[entry] = 1
+        while stack:
+            node, it = stack[-1]
+            adv = False
+            for v in it:
+                c = color.get(v, 0)
+                if c == 1:
+                    back.add((node, v))
+                elif c == 0:
+                    color[v] = 1
+                    stack.append((v, iter(self.succs(self.bid[v]))))
+                    adv = True
+                    break
+            if not adv:
+                color[node] = 2
+                order.append(node)
+                stack.pop()
+        order.reverse()
+        return back, order
+
+    def natural_loop(self, latch, header):
+        preds = {}
+        for b in self.blocks:
+            for v in self.succs(b):
+                preds.setdefault(v, []).append(b["id"])
+        body = {header, latch}
+        work = [latch] if latch != header else []
+        while work:
+            n = work.pop()
+            for p in preds.get(n, []):
+                if p not in body:
+                    body.add(p)
+                    work.append(p)
+        return body
+
     def loop_free(self):
         try:
             self.topo()
@@ -280,9 +323,17 @@ def where(inst):
 class Sym:
     """Gated-SSA term construction for one loop-free function."""
 
-    def __init__(self, fn, opaque_prefixes=("_ZN5verif4sink", "_ZN5verif7io_", "verif_"), prefix_only=False):
+    def __init__(self, fn, opaque_prefixes=("_ZN5verif4sink", "_ZN5verif7io_", "verif_"), prefix_only=False, epochs=False, cut_loops=False):
         self.fn = fn if isinstance(fn, Func) else Func(fn)
         self.prefix_only = prefix_only
+        self.cut_loops = cut_loops
+        self.cut = set()        # back edges that were cut
+        self.iv = {}            # phi id -> dict(init=term, header=block id, steps=[(latch cond, term)])
+        self.loops = []         # [(header, set(blocks))]
+        self.call_block = {}
+        self.epochs = epochs
+        self.branches = []      # (block condition, branch condition term, inst)
+        self.atom_bits = {('arg', a["i"]): type_bits(a["ty"]) for a in self.fn.args if type_bits(a["ty"])}
         self.val = {}
         self.calls = []
         self.stores = []        # stores to non-local memory
@@ -346,7 +397,13 @@ class Sym:
     # ---- main walk ----
     def _run(self):
         fn = self.fn
-        order = fn.acyclic_prefix() if self.prefix_only else fn.topo()
+        if self.cut_loops:
+            self.cut, order = fn.back_edges()
+            # a DFS order is topological for the graph without back edges only if it is a reverse postorder: it is
+            for (l, h) in self.cut:
+                self.loops.append((h, fn.natural_loop(l, h)))
+        else:
+            order = fn.acyclic_prefix() if self.prefix_only else fn.topo()
         if not order:
             raise AnalysisBroken("function %s has no acyclic prefix" % fn.name)
         entry = order[0]
@@ -377,6 +434,7 @@ class Sym:
                     self._edge(b["id"], ops[0]["id"], bc, incoming)
                 else:
                     c = self.operand(ops[0])
+                    self.branches.append((bc, c, inst))
                     # LLVM operand order: cond, false-dest, true-dest
                     self._edge(b["id"], ops[2]["id"], mk_and(bc, c), incoming)
                     self._edge(b["id"], ops[1]["id"], mk_and(bc, mk_not(c)), incoming)
@@ -408,12 +466,28 @@ class Sym:
             self.val[inst["id"]] = self._inst(inst, bc, b, incoming)
 
     def _edge(self, src, dst, cond, incoming):
+        if (src, dst) in self.cut:
+            self.latch_cond = getattr(self, "latch_cond", {})
+            self.latch_cond[(src, dst)] = cond
+            return
         if dst in incoming:
             incoming[dst].append((src, cond))
 
     def _phi(self, inst, inc):
         # gamma tree: select over the conditions of the incoming edges
         pairs = []
+        hdr = inst["_bb"]
+        cut_preds = {l for (l, h) in self.cut if h == hdr}
+        if cut_preds and any(pb in cut_preds for pb in inst["incoming"]):
+            fwd = [(o, pb) for o, pb in zip(inst["ops"], inst["incoming"]) if pb not in cut_preds]
+            init = None
+            for o, pb in fwd:
+                v = self.operand(o)
+                init = v if init is None or init == v else ('sel', ('edge', pb), v, init)
+            self.iv[inst["id"]] = {"init": init, "header": hdr, "back": [(o, pb) for o, pb in zip(inst["ops"], inst["incoming"]) if pb in cut_preds]}
+            if inst["ty"].endswith("*") and init is not None and init[0] == 'ptr':
+                return ('ptr', ('ivptr', inst["id"], init), 0)
+            return ('iv', inst["id"], init)
         for o, pb in zip(inst["ops"], inst["incoming"]):
             ec = FALSE
             for (p, c) in inc:
@@ -634,6 +708,8 @@ class Sym:
         return f(p)
 
     def _gep(self, inst, p, ops):
+        if p[0] in ('ld', 'wr', 'call', 'arg', 'fn'):
+            p = ('ptr', ('mem', p), 0)
         if p[0] != 'ptr':
             self.unknown.append(inst)
             return ('unk', inst["id"])
@@ -658,6 +734,8 @@ class Sym:
     def _load(self, inst, p, bc):
         ty = inst["ty"]
         size = inst["size"]
+        if p[0] in ('ld', 'wr', 'call', 'arg', 'fn'):
+            p = ('ptr', ('mem', p), 0)
         if p[0] != 'ptr':
             self.unknown.append(inst)
             return ('unk', inst["id"])
@@ -680,12 +758,26 @@ class Sym:
                             if isinstance(o, int) and o <= off + i * es and off + (i + 1) * es <= o + s0 and v0 is not None:
                                 r = subword(v0, s0, off + i * es - o, es, ety)
                                 break
+                            if isinstance(o, tuple) and o[0] == 'region' and v0[3] is not None and (o[1] is None or (o[1] <= off + i * es and off + (i + 1) * es <= o[1] + o[2])):
+                                r = ('wr', v0[1], v0[2], off + i * es - v0[3], es, ety)
                         elems.append(r if r is not None else ('ldlocal', base[1], off + i * es, es, ()))
                     return ('vec',) + tuple(elems)
                 e = m.get(off)
                 if e and e[0] == size:
                     v = e[1]
                     return v
+                if e is None and not any(isinstance(o, int) and o < off + size and o + s0 > off for o, (s0, _) in m.items()):
+                    best = None
+                    for k, (sz, v) in m.items():
+                        if isinstance(k, tuple) and k[0] == 'region':
+                            if k[1] is None or (k[1] <= off and off + size <= k[1] + k[2]):
+                                if best is None or k[3] > best[0]:
+                                    best = (k[3], v)
+                    if best is not None:
+                        w = best[1]
+                        if w[3] is not None:
+                            return ('wr', w[1], w[2], off - w[3], size, ty)
+                        return ('wr', w[1], w[2], None, size, ty)
                 if e is None and not any(isinstance(o, int) and o < off + size and o + s > off for o, (s, _) in m.items()):
                     if any(not isinstance(o, int) for o in m):
                         return ('ldlocal', base[1], off, size, ())
@@ -697,8 +789,8 @@ class Sym:
                         if r is not None:
                             return r
                 # partial overlap: give up on this value only
-                return ('ldlocal', base[1], off, size, tuple(sorted((o, s) for o, (s, _) in m.items())))
-            return ('lddyn', base[1], off, tuple(sorted((o, v[1]) for o, v in m.items())))
+                return ('ldlocal', base[1], off, size, tuple(sorted(((o, s) for o, (s, _) in m.items()), key=repr)))
+            return ('lddyn', base[1], off, tuple(sorted(((o, v[1]) for o, v in m.items()), key=repr)))
         if ty.startswith("<"):
             n = int(ty[1:].split(" x ")[0])
             es = size // n
@@ -707,11 +799,14 @@ class Sym:
         return ('ld', base, off, size, ty, self._ep(base))
 
     def _ep(self, base):
-        # loads through pointers returned by sink calls / arguments are tagged with the number of
-        # opaque calls made so far only when a non-local store happened (none in lookups)
-        return 0
+        # with epochs=True a load from non-local memory is tagged with the number of opaque calls made so
+        # far (an opaque callee may have changed that memory); lookups never write non-local memory, so
+        # there the tag stays 0 and equal addresses mean equal values
+        return len(self.calls) if self.epochs else 0
 
     def _store(self, inst, v, p, bc):
+        if p[0] in ('ld', 'wr', 'call', 'arg', 'fn'):
+            p = ('ptr', ('mem', p), 0)
         if p[0] != 'ptr':
             self.unknown.append(inst)
             return
@@ -778,13 +873,37 @@ class Sym:
             return ('fn', base, rty) + args
         c = Call(len(self.calls), name, inst.get("dcallee"), args, inst, bc)
         self.calls.append(c)
-        # arguments that are local pointers: the callee may write them (sret etc.)
-        for a in args:
+        c.block = inst["_bb"]
+        # arguments that are local pointers: remember what the callee can read there, and that it may write them
+        c.snap = {}
+        for ai, a in enumerate(args):
             if a[0] == 'ptr' and a[1][0] == 'alloca':
-                self.mem[a[1][1]][('clobber', c.n)] = (0, ('call', name, c.n))
+                c.snap[ai] = dict(self.mem[a[1][1]])
+                if name == "_ZNSo5writeEPKcl":
+                    continue        # std::ostream::write only reads [ptr, ptr+n)
+                if name == "_ZNSi4readEPcl" and ai == 1 and args[2][0] == 'ci':
+                    self._clobber(a[1][1], a[2], c, ai, args[2][1])   # std::istream::read writes exactly [ptr, ptr+n)
+                    continue
+                self._clobber(a[1][1], a[2], c, ai)
         if inst["ty"].endswith("*"):
             return ('ptr', ('ret', c.n), 0)
         return ('call', name, c.n) + args
+
+    def _clobber(self, aid, off, c, ai, length=None):
+        """an opaque callee received a pointer into local object aid.  Bytes [off, off+length) (the whole
+        object when length is None) now hold data produced by that call: 'wr' atoms addressed relative to
+        the pointer that was passed."""
+        m = self.mem[aid]
+        if not isinstance(off, int):
+            length = None
+        for k in list(m.keys()):
+            if isinstance(k, int):
+                sz = m[k][0]
+                if length is None or (k < off + length and k + sz > off):
+                    del m[k]
+            elif length is None:
+                del m[k]
+        m[('region', off if length is not None else None, length, c.n)] = (length or 0, ('wrbase', c.n, ai, off if isinstance(off, int) else None))
 
     def _memcpy(self, inst, args, bc):
         dst, src, n = args[0], args[1], args[2]
@@ -849,6 +968,19 @@ class Sym:
         for c, v in reversed(pairs[:-1]):
             t = ('sel', c, v, t)
         return t
+
+    def iv_step(self, phi_id):
+        """terms flowing around the back edge(s) into an induction phi (available after the walk)"""
+        out = []
+        for o, pb in self.iv[phi_id]["back"]:
+            try:
+                out.append(self.operand(o))
+            except KeyError:
+                out.append(None)
+        return out
+
+    def in_loop(self, block):
+        return [h for h, body in self.loops if block in body]
 
     def opaque_calls(self, prefix=None):
         return [c for c in self.calls if c.name and (prefix is None or c.name.startswith(prefix))]
@@ -928,11 +1060,99 @@ def walk(t, f, seen=None):
             walk(x, f, seen)
 
 
+def restrict(t, lit, truth, memo=None):
+    """simplify a term under the assumption that condition `lit` has the given truth value"""
+    if memo is None:
+        memo = {}
+    if not isinstance(t, tuple):
+        return t
+    k = (id(t), truth)
+    if k in memo:
+        return memo[k]
+    if t == lit:
+        r = TRUE if truth else FALSE
+    elif t[0] == 'not':
+        r = mk_not(restrict(t[1], lit, truth, memo))
+    elif t[0] == 'and':
+        r = mk_and(restrict(t[1], lit, truth, memo), restrict(t[2], lit, truth, memo))
+    elif t[0] == 'or':
+        r = mk_or(restrict(t[1], lit, truth, memo), restrict(t[2], lit, truth, memo))
+    elif t[0] == 'sel':
+        c = restrict(t[1], lit, truth, memo)
+        if c == TRUE:
+            r = restrict(t[2], lit, truth, memo)
+        elif c == FALSE:
+            r = restrict(t[3], lit, truth, memo)
+        else:
+            a, b = restrict(t[2], lit, truth, memo), restrict(t[3], lit, truth, memo)
+            r = a if a == b else ('sel', c, a, b)
+    else:
+        r = t
+    memo[k] = r
+    return r
+
+
+def ungate(t):
+    """strip the path-condition gating that Sym.outputs() puts around conditionally executed stores"""
+    while isinstance(t, tuple) and t[0] == 'sel' and t[3] == ('undef',):
+        t = t[2]
+    return t
+
+
+def common_lits(c, memo=None):
+    """literals that hold on every path described by a path condition (and = union, or = intersection)"""
+    if memo is None:
+        memo = {}
+    k = id(c)
+    if k in memo:
+        return memo[k]
+    if isinstance(c, tuple) and c[0] == 'and':
+        r = common_lits(c[1], memo) | common_lits(c[2], memo)
+    elif isinstance(c, tuple) and c[0] == 'or':
+        r = (common_lits(c[1], memo) & common_lits(c[2], memo)) | frozenset([c])
+    else:
+        r = frozenset([c])
+    memo[k] = r
+    return r
+
+
+def occurs_positive(c, target, seen=None):
+    """does literal `target` occur as a conjunct/disjunct of the path condition c (i.e. some path through it takes that edge)?"""
+    if seen is None:
+        seen = set()
+    if id(c) in seen:
+        return False
+    seen.add(id(c))
+    if c == target:
+        return True
+    if isinstance(c, tuple) and c[0] in ('and', 'or'):
+        return occurs_positive(c[1], target, seen) or occurs_positive(c[2], target, seen)
+    return False
+
+
+def flatten_and(c):
+    """the literals of a (nested) conjunction"""
+    out = []
+    stack = [c]
+    while stack:
+        x = stack.pop()
+        if isinstance(x, tuple) and x[0] == 'and':
+            stack.append(x[1])
+            stack.append(x[2])
+        else:
+            out.append(x)
+    return out
+
+
 def atoms(t):
     """D-dep: the set of atoms a term may depend on."""
     out = set()
 
     def f(x):
+        if x[0] == 'wr':
+            out.add(x)
+        if x[0] == 'iv':
+            out.add(('iv', x[1]))
         if x[0] == 'arg':
             out.add(x)
         elif x[0] == 'ld':
@@ -977,6 +1197,10 @@ def show(t, names=None, depth=0):
     names = names or {}
     if not isinstance(t, tuple):
         return str(t)
+    if not t:
+        return "()"
+    if not isinstance(t[0], str):
+        return "(" + ", ".join(show(x, names, depth + 1) for x in t) + ")"
     if t in names:
         return names[t]
     h = t[0]
@@ -1006,6 +1230,12 @@ def show(t, names=None, depth=0):
         return "call#%d" % t[2]
     if h in ('not',):
         return "!%s" % show(t[1], names, depth + 1)
+    if h == 'wr':
+        return "rd#%d[%s:%s]" % (t[1], t[3], t[4])
+    if h == 'iv':
+        return "iv%d" % t[1]
+    if len(t) == 1:
+        return h
     if h in ('and', 'or'):
         return "(%s %s %s)" % (show(t[1], names, depth + 1), h, show(t[2], names, depth + 1))
     return "%s(%s)" % (h, ", ".join(show(x, names, depth + 1) for x in t[1:]))
